@@ -207,6 +207,10 @@ impl Reporter {
                 truncate(first, 160)
             );
         }
+        if let Ok(dump) = std::env::var("VERIF_DUMP_VIOLATIONS") {
+            let all: Vec<&str> = real.iter().map(|v| v.key.as_str()).collect();
+            let _ = std::fs::write(dump, all.join("\n"));
+        }
         let mut exit = 0;
         if !real.is_empty() {
             let _ = std::fs::create_dir_all(&rdir);
